@@ -10,6 +10,7 @@ import (
 	"bufio"
 	"io"
 	"io/ioutil"
+	"sync"
 )
 
 // Connection is a connection based on HAP protocol which encrypts and decrypts the data.
@@ -25,6 +26,9 @@ type Connection struct {
 
 	// Used to buffer reads
 	readBuffer io.Reader
+
+	// Serializes encrypt-and-write, so that frames are written in the order of their nonces
+	writeMutex sync.Mutex
 }
 
 // NewConnection returns a hap connection.
@@ -44,6 +48,9 @@ func NewConnection(connection net.Conn, context Context) *Connection {
 // EncryptedWrite encrypts and writes bytes to the connection.
 // The method returns the number of written bytes and an error when writing failed.
 func (con *Connection) EncryptedWrite(b []byte) (int, error) {
+	con.writeMutex.Lock()
+	defer con.writeMutex.Unlock()
+
 	var buffer bytes.Buffer
 	buffer.Write(b)
 	encrypted, err := con.getEncrypter().Encrypt(&buffer)
